@@ -53,7 +53,7 @@ HARNESS_BIN = "c06"
 NCASES = {"quick": 20000, "thorough": 400000}
 CASE_TIMEOUT = {"quick": 30, "thorough": 120}
 
-LEVEL_TEXT = ("Coq theorems for all inputs (coq/props/C06.v, 108 statements incl. refutations of the findings on their witnesses; the refutations of the classes repaired in round 4 are kept over the models of the old code). Rounds 1-2: the as-is model of "
+LEVEL_TEXT = ("Coq theorems for all inputs (coq/props/C06.v, 110 statements incl. refutations of the findings on their witnesses; the refutations of the classes repaired in round 4 are kept over the models of the old code). Rounds 1-2: the as-is model of "
               "FloatEncoding::encode (one text, the f32 and f64 constants) returns the round-to-nearest-even bit pattern and the true error sign of mantissa*2^exponent for every "
               "i32/i64 mantissa and every exponent (overflow, normal, subnormal, underflow branches); decode is its inverse on every "
               "finite pattern; UBig/IBig::to_f32/to_f64 are correct for EVERY integer (multi-word route: top 31/63 bits + sticky bit, then encode; double-word route: native cast, "
@@ -90,7 +90,8 @@ LEVEL_TEXT = ("Coq theorems for all inputs (coq/props/C06.v, 108 statements incl
               "position, ties at every length); (4) for a base that is not a power of two and |exponent| > 38 the conversion is proved to be the base-2 conversion of the approximant of "
               "convert_base's ln/exp route (C08's as-is model over C11's ln/exp, any estimate layer): one rounding to 24/53 bits + exact encoding, no assertion, correctly rounded with the "
               "truthful flag relative to that approximant; the model runs in the oracle (fidelity 100 %). The thresholds of binary_to_f32/f64, the literals of round_to_subnormal and the shape "
-              "of the repaired division route are regenerated on every run (coq/gen/ConvParams4.v, C06_source_literals_tie_r4).")
+              "of the repaired division route are regenerated on every run (coq/gen/ConvParams4.v, C06_source_literals_tie_r4). (5) TryFrom<Relaxed> for UBig/IBig/primitive integers was REPAIRED "
+              "(canonicalise before the denominator test; 6/3 converts) and is proved exact-or-refused for every stored pair.")
 LEVEL_NOTE = ("Trusted: Coq kernel, extraction + FastZ.v, zarith, harness, f32/f64::MANTISSA_DIGITS = 24/53 (a constant of core, not of the repository). Rust's `as` casts "
               "between integers and floats are no longer an unproved contract: cast_uint / cast_back are proved equal to the Rust Reference's wording over Flocq (binary_normalize mode_NE; Btrunc "
               "clamped, NaN -> 0) and that wording is compared with the compiler's casts on every run (what remains trusted is that the compiler behaves on all values as on the ~100 000 edge "
